@@ -20,7 +20,7 @@ ASSUMPTIONS = [
     "AES of the model is OpenSSL libcrypto (EVP, CBC, zero IV), cross-checked against a from-the-definition AES in C16",
     "the writer's single trailing empty line after the hex block is allowed (not part of the stated layout, not contradicting it)",
 ]
-REQUIRED_CLASSES = ["offset>65535", "comps>=2", "bec2.blocks>=2", "bec2.ecc", "enc-component", "route=path"]
+REQUIRED_CLASSES = ["offset>65535", "comps>=2", "bec2.blocks>=2", "bec2.ecc", "enc-component", "route=path", "entries>255"]
 
 
 def _model_comps(case, key):
@@ -209,8 +209,24 @@ def strat_bec2(tier):
     ))
 
 
+def enum_many_entries(tier, shard, nshards, rng):
+    """CONSTRUCTED: directories with more than 255 entries (the entry MAC is chained from the FULL 1-based index, a 16-byte big-endian block)"""
+    counts = [255, 256, 257, 300] if tier == "quick" else [255, 256, 257, 300, 511, 512, 513, 700]
+    for i, n in enumerate(counts):
+        if i % nshards != shard:
+            continue
+        comps = [dict(desc=[] if j % 3 else [(0xC1, bytes([j & 0xFF]))], blob=bytes([(j * 7) & 0xFF or 1]) * (1 + j % 3), actual_len=None, enc=False) for j in range(n)]
+        yield dict(comments=[], comps=comps, key=bytes(rng.getrandbits(8) for _ in range(16)), route="stream", offset=5)
+
+
+def check_many(case, rec):
+    rec.cls("entries>255" if len(case["comps"]) > 255 else "entries=255")
+    check_bf3(case, rec)
+
+
 def parts(tier):
     return [
+        Part("many_entries", check=check_many, enum=enum_many_entries, quick=(4, 0), thorough=(8, 0)),
         Part("bf3_layout", check=check_bf3, strategy=strat_bf3, quick=(16, 400), thorough=(16, 4000)),
         Part("bec2_layout", check=check_bec2, strategy=strat_bec2, quick=(16, 150), thorough=(16, 1200)),
     ]
